@@ -299,7 +299,7 @@ fn one_history(cfg: &Cfg, r: &mut Report, s: &Arc<Sched>, rt: &tokio::runtime::R
 
 /// Returns true when a violation was reported.
 fn judge(r: &mut Report, store: &Store, shared: &Shared, idx: u64, phase: u32, threads: usize, noise_us: u64) -> bool {
-    let bytes = store.log_bytes();
+    let bytes = store.log_bytes_settled();
     let witness = |extra: Value| {
         json!({"case": idx, "phase": phase, "threads": threads, "noise_us": noise_us, "detail": extra})
     };
